@@ -1329,7 +1329,8 @@ impl<'source, 'trivia> GroupBuilder<'source, 'trivia> {
                     TriviaPosition::LineStart | TriviaPosition::ScriptEnd
                 ) && !matches!(
                     self.items.last(),
-                    Some(FormatItem::GroupBreak(GroupBreak::StartBlock))
+                    // Empty lines at the start of the script are dropped too
+                    None | Some(FormatItem::GroupBreak(GroupBreak::StartBlock))
                 ) {
                     self.strip_trailing_breaks();
                     self.items.push(FormatItem::LineBreak);
